@@ -109,12 +109,18 @@ def _periodic_lower_bounds(x, period):
 
 
 def _periodic_overlap(x0, x1, y0, y1, period):
-  # valid as long as no intervals are larger than period/2
-  y0 = _align_phase_with(y0, x0, period)
-  y1 = _align_phase_with(y1, x0, period)
-  upper = jnp.minimum(x1, y1)
-  lower = jnp.maximum(x0, y0)
-  return jnp.maximum(upper - lower, 0)
+  # valid as long as no intervals are larger than the period. The interval
+  # [y0, y1] is moved as a whole next to x0; its periodic images on either side
+  # may also intersect [x0, x1] when the two intervals are wide.
+  shift = _align_phase_with(y0, x0, period) - y0
+  y0 = y0 + shift
+  y1 = y1 + shift
+  overlap = 0
+  for offset in (-period, 0, period):
+    upper = jnp.minimum(x1, y1 + offset)
+    lower = jnp.maximum(x0, y0 + offset)
+    overlap += jnp.maximum(upper - lower, 0)
+  return overlap
 
 
 def _longitude_overlap(
